@@ -181,6 +181,10 @@ def check_C10(res, scratch, tier, seed):
     run_family(res, scratch, "F2e", mcgram_cfg([1], [11, 12], 2, 2, 0, True, [0, 4], False), mk, builds=builds, mine=mine)
     if tier == "thorough":
         run_family(res, scratch, "F3", mcgram_cfg([1, 2], [11, 12], 3, 2, 0, False, [0], False), mk, builds=builds, mine=mine, timeout=3000)
+    # definition-level defects (MCDef.tla): terminal declarations; reserved names anywhere in the rules; malformed translations
+    run_family(res, scratch, "Dterms", mcdef_cfg("NamesAll", "CodesAll", 2 if tier == "quick" else 3, "LhsPlain", "RhsPlain", 1, 1, [0]), mk, builds=builds, mine=mine, module="MCDef")
+    run_family(res, scratch, "Dnames", mcdef_cfg("NamesPlain", "CodesPlain", 0, "LhsAll", "RhsAll", 2, 2, [0]), mk, builds=builds, mine=mine, module="MCDef", timeout=3000)
+    run_family(res, scratch, "Dtrans", mcdef_cfg("NamesPlain", "CodesPlain", 0, "LhsPlain", "RhsPlain", 2, 2, [0, 4, 10, 11, 12, 13]), mk, builds=builds, mine=mine, module="MCDef")
     res.cov["distinct_nontrivial"] = sum(f["vectors"] for f in res.notes["families"])
     corpus_part(res, scratch, tier, seed, "C10", [], ("curated", "chains", "loops", "random", "random_err"), builds=builds, define_only=True, mine=mine)
     res.cov["exhaustive"] = True
@@ -1123,7 +1127,7 @@ def check_C12(res, scratch, tier, seed):
             for r in v["rules"]:
                 an = "-" if r["an"] == 0 else ("a%d" % r["an"]) + ("y" * 290 if style == "long" else "")
                 tr = ["N" if e == 0 else str(e - 1) for e in r["t"]]
-                lines.append("R %s %s %d %d %s %d %s" % (nm(r["l"]), an, r["c"], len(r["r"]), " ".join(nm(s) for s in r["r"]), len(tr), " ".join(tr)))
+                lines.append(" ".join(["R", nm(r["l"]), an, str(r["c"]), str(len(r["r"]))] + [nm(s) for s in r["r"]] + [str(len(tr))] + tr))
             for strict, d in ((1, v["ds"]), (0, v["dn"])):
                 lines.append("D %d %s" % (strict, ",".join(map(str, d)) if d else "0"))
             blocks.append(lines)
